@@ -31,7 +31,9 @@ import (
 	"verifharness/mbt"
 )
 
-const maxReported = 8
+const maxPerKey = 2 // mismatches reported per failure class and driver process
+
+const maxReported = 4 // mismatches re-run and reported per driver process (the rest is counted)
 
 var realmPath = map[string]string{
 	"a":    "gno.land/r/verif/alpha",
@@ -538,6 +540,7 @@ func main() {
 	}
 	w := newWorld()
 	failed, unreported, steps := 0, 0, 0
+	perKey := map[string]int{}
 	for _, b := range behs {
 		steps += len(b)
 		k, fl := w.replay(b)
@@ -549,10 +552,11 @@ func main() {
 			mbt.Mismatch(fl.key, fl.what, map[string]any{"steps": b[:k+1]})
 			break
 		}
-		if failed >= maxReported {
+		if failed >= maxReported || perKey[fl.key] >= maxPerKey {
 			unreported++
 			continue
 		}
+		perKey[fl.key]++
 		// once more, fresh keys
 		if _, fl2 := w.replay(b); fl2 == nil {
 			mbt.Die("FLAKY: %s: %s did not reproduce", fl.key, fl.what)
